@@ -4,8 +4,11 @@ import json, os, glob
 V = os.path.dirname(os.path.dirname(os.path.abspath(__file__)))
 hdr = json.load(open(os.path.join(V, "manifest.d", "header.json")))
 checks = []
+claimed_ids = set(open(os.path.join(V, "manifest.d", "CLAIMED")).read().split())
 for p in sorted(glob.glob(os.path.join(V, "manifest.d", "C*.json"))):
-    checks.append(json.load(open(p)))
+    c = json.load(open(p))
+    if c["property_id"] in claimed_ids:   # only checks the lead has run green on the unchanged tree are claimed
+        checks.append(c)
 ids = [json.loads(l)["id"] for l in open(os.path.join(V, "properties.jsonl"))]
 claimed = {c["property_id"] for c in checks}
 na_reasons = hdr.pop("_not_applicable_reasons", {})
